@@ -722,3 +722,22 @@ def mon_c10(trace):
                     out.append(_fail("C10", trace, t, f"shock of event {i} not in force at/after its occurrence", e1["delta"][f], want[f], f,
                                      sig="shock-not-in-force"))
     return out
+
+
+def _relabel(mon, prop):
+    def m(trace):
+        out = mon(trace)
+        for f in out:
+            f["property"] = prop
+        return out
+    m.__name__ = f"{mon.__name__}_as_{prop}"
+    return m
+
+
+def mon_c08_as(prop):
+    """books of the events stay separate: each event is credited its own block (C11 reads C08's ledger clauses)"""
+    return _relabel(mon_c08, prop)
+
+
+def mon_c07_as(prop):
+    return _relabel(mon_c07, prop)
